@@ -71,7 +71,7 @@ def run(ctx):
             "harness/loader-shim: the loader's main.rs compiled unmodified as an rlib; driver passes strings through alloc_string/free_string like loader-core's alloc.ts, one fresh thread (= fresh thread-locals) per history, child process per batch, an abort is recorded as Trap at the call that did not return",
             "oracles: parse_operation_document+resolve_operation_extensions called directly per source (parse_o); emit_js of a fresh loader instance given the same files (emit_o); both enter the Coq model as Section variables",
             "std HashMap / PathBuf modelled as association lists keyed by Path::components equality (C20's model of components/resolve_relative_path); HashMap iteration order left unspecified (required-files list compared as a multiset)",
-            "memory ownership: ghost heap in the model (C19/Ghost.v) + valgrind memcheck on the thorough tier; the real allocator is outside the proof",
+            "memory ownership: ghost heap in the model (C19/Ghost.v, theorem C19_ghost_ownership) + valgrind memcheck and leak accounting on a sample of histories in both tiers; the real allocator is outside the proof",
         ],
         assumptions=[
             "load_config / init / get_log / alloc_string / free_string are outside the call alphabet (default config; init once per process)",
